@@ -514,3 +514,62 @@ func ZZ_C12_H5() {
 	zz.Cover("reached-assert", true)
 	zz.Assert("every-request-runs-the-engine-middleware-attached-before-it", okAll)
 }
+
+// ZZ_C12_H8: the static-file helpers (StaticFile, Static/StaticFS) register a GET and a HEAD
+// route: on both, the engine's and the group's middleware is entered exactly once, outermost
+// first, before the file handler - observed with an innermost middleware that aborts (as an
+// authentication middleware does), so the file handler itself never runs - and the response is
+// the aborting middleware's.
+func ZZ_C12_H8() {
+	helper := zz.Choose("helper", 2) // 0 StaticFile, 1 StaticFS
+	method := []string{"GET", "HEAD"}[zz.Choose("method", 2)]
+	inGroup := zz.Choose("inGroup", 2) == 1
+	var tr []int
+	mk := func(id int) app.HandlerFunc {
+		return func(c context.Context, ctx *app.RequestContext) {
+			tr = append(tr, id)
+			ctx.Next(c)
+		}
+	}
+	deny := func(c context.Context, ctx *app.RequestContext) {
+		tr = append(tr, 401)
+		ctx.AbortWithStatus(401)
+	}
+	e := zzNewEngine()
+	e.Use(mk(100))
+	want := []int{100}
+	var r IRoutes = e
+	prefix := ""
+	if inGroup {
+		r = e.Group("/g", mk(150), deny)
+		prefix = "/g"
+		want = append(want, 150, 401)
+	} else {
+		e.Use(deny)
+		want = append(want, 401)
+	}
+	target := prefix + "/f"
+	if helper == 0 {
+		r.StaticFile("/f", "/zz/no/such/file")
+	} else {
+		r.StaticFS("/s", &app.FS{Root: "/zz/no/such/dir"})
+		target = prefix + "/s/x.txt"
+	}
+	ctx := app.NewContext(0)
+	ctx.Request.SetHost("h")
+	ctx.Request.SetRequestURI(target)
+	ctx.Request.Header.SetMethod(method)
+	e.ServeHTTP(context.Background(), ctx)
+	zz.Cover("reached-assert", true)
+	zz.Cover("head-request", method == "HEAD")
+	same := len(tr) == len(want)
+	if same {
+		for i := range tr {
+			if tr[i] != want[i] {
+				same = false
+			}
+		}
+	}
+	zz.Assert("middleware-entered-once-outermost-first-before-the-file-handler", same)
+	zz.Assert("aborting-middleware-decides-the-response", ctx.Response.StatusCode() == 401)
+}
